@@ -29,9 +29,10 @@ REGISTRY = dict(
          "TLC-enumerated mutations of the path grammar and of the JSON transfer schema are fed to every entry point and "
          "any panic is a violation.",
     design_ref="DESIGN.md 6 C14",
-    note="Trusted: TLC, harness/cmd/inproc/mask.go (runs the queries, recover), the rendering of mutation tokens to "
-         "bytes in checks/c14.py. Bounded: one descriptor with 11+4 fields (struct, typedef, list/set, int/str/enum/bool "
-         "maps, nested 2 levels, ids 1..300 and negative), alphabets of 12..53 paths, 63 walks + 51 PathInMask queries.",
+    note="Trusted: TLC, harness/cmd/inproc/mask.go (runs the queries, recover, watchdog), the rendering of mutation "
+         "tokens to bytes in checks/c14.py. Bounded: one descriptor with 11+4 fields (struct, typedef, list/set, "
+         "int/str/enum/bool maps, nested 2 levels, ids 1..300 and negative), alphabets of 9..57 paths, 63 walks + 44 "
+         "PathInMask queries; 36 hostile path tokens x every position of 10 base paths; ~10^4 JSON documents.",
     technique="TLA+ refinement (trie => path-set semantics) + TLC-generated cases with prescribed answers replayed "
               "into the real package + TLC-enumerated grammar mutations for robustness")
 
@@ -39,13 +40,10 @@ SPECDIR = "FieldMask"
 
 CFG = """SPECIFICATION Spec
 CONSTANTS
-  Structs <- cStructs
-  Root = "%(root)s"
-  Alphabet <- %(alphabet)s
+  RootName = "%(root)s"
+  AlphabetName = "%(alphabet)s"
+  PimsName = "%(pims)s"
   MaxLen = %(maxlen)d
-  Walks <- cWalks
-  Pims <- %(pims)s
-  StrOrder <- cStrOrder
   Fixes = {%(fixes)s}
 INVARIANTS TypeOK Emit
 CHECK_DEADLOCK FALSE
@@ -75,10 +73,6 @@ def decode_walk(n):
         out.append(" naAP"[n % 5])
         n //= 5
     return "".join(out)
-
-
-def encode_obs_walk(s):
-    return s
 
 
 def norm_desc_type(t):
@@ -619,12 +613,19 @@ def run(ctx, args):
         nviol += s.judge()
     nviol += robust(ctx, harness, ctx.path("q-u0.json"))
     ctx.exhaustive = True
+    if os.environ.get("VERIF_C14_CLASSES"):      # development aid: all violation classes with counts
+        cnt = collections.Counter(json.dumps(v["class"], sort_keys=True) for v in ctx.violations)
+        with open(os.environ["VERIF_C14_CLASSES"], "w") as fh:
+            json.dump(cnt.most_common(), fh, indent=1)
     return ctx.finish(
         rule="semantic cases = every reachable state of the FieldMask machine (all lists of <= MaxLen alphabet paths, "
              "every order and grouping, white and black), each replayed into the real package and compared with the "
-             "answers layer A prescribes (63 walks of Field/Int/Str + All, 51 PathInMask queries, JSON round trip via 3 "
-             "entry points, text stability, equal text for equal path sets). distinct class = (mode, root, length, "
-             "outcome class, kinds of the paths)",
+             "answers layer A prescribes (63 walks of Field/Int/Str + All, 44 PathInMask queries, JSON round trip via 3 "
+             "entry points, text stability, equal text for equal path sets). Robustness cases = every state of "
+             "FieldMaskRobust (single / double mutations of 10 well-formed paths; JSON transfer trees to depth 2 over "
+             "well- and ill-typed field values, deep chains, truncations, stray bytes), each through every entry point; "
+             "panic or hang = violation. distinct class = (mode, root, length, outcome class, kinds of the paths) resp. "
+             "(input kind, mutation, parent type)",
         assumptions=["one descriptor (structs R, W, V and N with negative ids) and the bounded alphabets / query sets of "
                      "spec/FieldMask/MC_FieldMask.tla",
                      "for lists with a conflict ('*' vs explicit key at one position, complete path vs longer path) only "
